@@ -297,6 +297,11 @@ def c03_set(i, gen, tier, cap, path='all', signed=True, unsigned=True, tagx=''):
 for i, tier, cap in ((I(8, 3), 'thorough', 7200), (I(8, 4), 'thorough', 10800), (I(16, 3), 'thorough', 10800)):
     add(H('C03', f"c03_u_semi_{i.tag}", 'c03_u_semi', f"{i.n + 2}, {i.U}, {i.digit}, {i.n}, {_x(i, False)}", tier=tier, cap=cap, inst=i.label, core=False, mem_gb=12,
           funcs='BUint / and % (Knuth D incl. q-hat corrections and add-back)', bound='all dividends; divisor digits over the boundary alphabet; postcondition n = q*d + r, r < d'))
+for i, cap in ((I(8, 3), 10800), (I(16, 2), 10800)):
+    add(H('C03', f"c03_u_semi2_{i.tag}", 'c03_u_semi', f"{i.n + 2}, {i.U}, {i.digit}, {i.n}, {_x(i, False)}, any_alpha, any", tier='thorough', cap=cap, inst=i.label, core=False, mem_gb=12,
+          funcs='BUint / and % (Knuth D incl. q-hat corrections and add-back)', bound='dividend digits over the boundary alphabet; all divisors; postcondition n = q*d + r, r < d'))
+add(H('C03', "c03_u_semi_d16x2", 'c03_u_semi', f"4, {I(16, 2).U}, u16, 2, u64", tier='thorough', cap=10800, inst=I(16, 2).label, core=False, mem_gb=12,
+      funcs='BUint / and % (Knuth D, u16 digits)', bound='all dividends; divisor digits over the boundary alphabet'))
 c03_set(I(8, 1), 'any', 'quick', 600)
 c03_set(I(8, 2), 'any', 'quick', 900, path='small')
 c03_set(I(16, 1), 'any', 'quick', 900)
